@@ -1875,6 +1875,8 @@ fn run() {
     if part == "all" || part == "b" {
         let mut r = rng.fork();
         run_part_b_attrs(&mut ctx, &mut r, params.n(3000, 150_000));
+        let mut r = rng.fork();
+        run_part_b_nlri(&mut ctx, &mut r, params.n(3000, 150_000));
     }
     let _ = ctx.rep.finish();
 }
@@ -2871,27 +2873,6 @@ fn part_b_attr(ctx: &mut Ctx, m: api::Attribute) {
     if via_unknown && Attribute::canonical_flags(code).is_some() && matches!(code, 1 | 2 | 4 | 5 | 9) {
         ctx.rep.count("b:unknown-with-wellknown-code-accepted");
     }
-    for (rule, detail) in bad.iter() {
-        let sig = if via_unknown {
-            format!("C17/invariant/unknown-variant/{}", rule)
-        } else {
-            format!("C17/invariant/{}/{}", code, rule)
-        };
-        ctx.rep.violation(
-            &sig,
-            &format!(
-                "attr_from_api accepts a {} attribute the wire decoder would reject: {}",
-                if via_unknown { "well-known-code `Unknown`" } else { "typed" },
-                detail
-            ),
-            Json::obj(vec![
-                ("api", Json::s(m_s.clone())),
-                ("accepted_as", Json::s(attr_dbg(&a))),
-                ("rule", Json::s(*rule)),
-                ("detail", Json::s(detail.clone())),
-            ]),
-        );
-    }
     if wire_valid {
         ctx.rep.count("b:attr-accepted-wire-valid");
         if code == Attribute::AS_PATH {
@@ -2899,7 +2880,7 @@ fn part_b_attr(ctx: &mut Ctx, m: api::Attribute) {
                 let mut pos = 0;
                 while pos + 2 <= b.len() {
                     if b[pos + 1] == 0 {
-                        ctx.rep.count("unjudged:as-path-zero-length-segment-accepted(wire accepts it too)");
+                        ctx.rep.count("unjudged:as-path-zero-length-segment-accepted(the wire decoder accepts it too)");
                         break;
                     }
                     pos += 2 + 4 * b[pos + 1] as usize;
@@ -2907,44 +2888,89 @@ fn part_b_attr(ctx: &mut Ctx, m: api::Attribute) {
             }
         }
     }
-    // use it the way add_path would
+    // use it the way add_path would (local_path drops some codes before the table)
     let attrs = Arc::new(local_path_like(&[a.clone()]));
     let reaches_table = attrs.iter().any(|x| x == &a);
-    if !reaches_table {
-        ctx.rep.count("b:attr-dropped-by-local_path(not used)");
-        return;
-    }
     let big = a.binary().map(|b| b.len() > 3500).unwrap_or(false);
     let nlri = Nlri::V4(bgp::Ipv4Net { addr: Ipv4Addr::new(10, 1, 0, 0), mask: 16 });
     let nh = Some(bgp::Nexthop::V4(Ipv4Addr::new(10, 0, 0, 1)));
-    let ur = use_value(ctx, Family::IPV4, &nlri, nh, &attrs, wire_valid && !big);
-    ctx.rep.count("b:attr-used");
-    let mut seen: Vec<String> = Vec::new();
+    let ur = if reaches_table {
+        ctx.rep.count("b:attr-used");
+        use_value(ctx, Family::IPV4, &nlri, nh, &attrs, wire_valid && !big)
+    } else {
+        ctx.rep.count("b:attr-dropped-by-local_path(not used)");
+        UseResult { panics: vec![], wire: None }
+    };
+    let consequences: Vec<String> = {
+        let mut v: Vec<String> = Vec::new();
+        for (stage, p) in ur.panics.iter() {
+            let s = format!("{} panics at {} ({})", stage.split('/').next().unwrap_or(""), p.location, panic_class(&p.message));
+            if !v.contains(&s) {
+                v.push(s);
+            }
+        }
+        v
+    };
     for (stage, p) in ur.panics.iter() {
         ctx.rep.count(&format!("b:use-panic:{}", stage.split('/').next().unwrap_or("")));
-        if seen.contains(&p.location) {
-            continue;
+    }
+    // A value that breaks a wire rule is reported under that rule (the root
+    // cause); the crashes it leads to are its consequences and go into the
+    // witness.  Only crashes of values the validator finds wire-valid get their
+    // own `unsafe-accept` signature.
+    for (rule, detail) in bad.iter() {
+        let sig = if *rule == "too-long" {
+            "C17/invariant/any/too-long".to_string()
+        } else if via_unknown {
+            format!("C17/invariant/unknown-variant/{}", rule)
+        } else {
+            format!("C17/invariant/{}/{}", code, rule)
+        };
+        if !consequences.is_empty() {
+            ctx.rep.count("b:invariant-violation-that-crashes-later");
         }
-        seen.push(p.location.clone());
-        let sig = format!("C17/unsafe-accept/{}", p.location);
         ctx.rep.violation(
             &sig,
             &format!(
-                "a value accepted by attr_from_api panics later in {} at {} ({}){}",
-                stage,
-                p.location,
-                trunc(p.message.clone()),
-                if wire_valid { " — note: the value also satisfies the wire decoder's rules" } else { "" }
+                "attr_from_api accepts a {} attribute the wire decoder would reject: {}{}",
+                if via_unknown { "well-known-code `Unknown`" } else { "typed" },
+                detail,
+                if consequences.is_empty() {
+                    String::new()
+                } else {
+                    format!("; used like add_path uses it: {}", consequences.join(", "))
+                }
             ),
             Json::obj(vec![
                 ("api", Json::s(m_s.clone())),
                 ("accepted_as", Json::s(attr_dbg(&a))),
-                ("stage", Json::s(stage.clone())),
-                ("panic", Json::s(trunc(p.message.clone()))),
-                ("wire_valid", Json::Bool(wire_valid)),
-                ("all_stages", Json::strs(ur.panics.iter().map(|(s, p)| format!("{} @ {}", s, p.location)))),
+                ("rule", Json::s(*rule)),
+                ("detail", Json::s(detail.clone())),
+                ("consequences", Json::strs(consequences.clone())),
             ]),
         );
+    }
+    if wire_valid {
+        if let Some((stage, p)) = ur.panics.first() {
+            let sig = format!("C17/unsafe-accept/{}", p.location);
+            ctx.rep.violation(
+                &sig,
+                &format!(
+                    "a value accepted by attr_from_api (and valid by the wire decoder's rules) panics in {} at {} ({})",
+                    stage,
+                    p.location,
+                    trunc(p.message.clone())
+                ),
+                Json::obj(vec![
+                    ("api", Json::s(m_s.clone())),
+                    ("accepted_as", Json::s(attr_dbg(&a))),
+                    ("stage", Json::s(stage.clone())),
+                    ("panic", Json::s(trunc(p.message.clone()))),
+                    ("wire_valid", Json::Bool(true)),
+                    ("all_panics", Json::strs(consequences.clone())),
+                ]),
+            );
+        }
     }
     if let Some(why) = ur.wire {
         let sig = if via_unknown {
@@ -2977,5 +3003,559 @@ fn run_part_b_attrs(ctx: &mut Ctx, r: &mut Rng, n: u64) {
         }
         let m = gen_api_attr(r);
         part_b_attr(ctx, m);
+    }
+}
+
+// ------------------------------------------------------------------ (b) NLRI totality
+
+fn mutate_rd(rd: &mut Option<api::RouteDistinguisher>, r: &mut Rng) {
+    use api::route_distinguisher::Rd;
+    *rd = match r.below(6) {
+        0 => None,
+        1 => Some(api::RouteDistinguisher { rd: None }),
+        2 => Some(api::RouteDistinguisher {
+            rd: Some(Rd::TwoOctetAsn(api::RouteDistinguisherTwoOctetAsn { admin: rnd_u32(r), assigned: rnd_u32(r) })),
+        }),
+        3 => Some(api::RouteDistinguisher {
+            rd: Some(Rd::IpAddress(api::RouteDistinguisherIpAddress { admin: some_addr(r), assigned: rnd_u32(r) })),
+        }),
+        4 => Some(api::RouteDistinguisher {
+            rd: Some(Rd::FourOctetAsn(api::RouteDistinguisherFourOctetAsn { admin: rnd_u32(r), assigned: rnd_u32(r) })),
+        }),
+        _ => return,
+    };
+}
+
+fn weird_len(r: &mut Rng) -> u32 {
+    *r.pick(&[0u32, 1, 24, 32, 33, 40, 64, 128, 129, 200, 255, 256, 256 + 24, 65536 + 8, u32::MAX])
+}
+
+fn mutate_rules(rules: &mut Vec<api::FlowSpecRule>, r: &mut Rng) {
+    use api::flow_spec_rule::Rule;
+    match r.below(8) {
+        0 => rules.clear(),
+        1 => rules.push(api::FlowSpecRule { rule: None }),
+        2 => rules.push(api::FlowSpecRule {
+            rule: Some(Rule::Mac(api::FlowSpecMac { r#type: 15, address: "aa:bb:cc:dd:ee:ff".into() })),
+        }),
+        3 => rules.push(api::FlowSpecRule {
+            rule: Some(Rule::Component(api::FlowSpecComponent {
+                r#type: *r.pick(&[0u32, 3, 13, 14, 255, 256 + 3]),
+                items: vec![api::FlowSpecComponentItem { op: 0x81, value: 6 }],
+            })),
+        }),
+        _ => {
+            if rules.is_empty() {
+                return;
+            }
+            let i = r.usize(rules.len());
+            match rules[i].rule.as_mut() {
+                Some(Rule::IpPrefix(p)) => match r.below(4) {
+                    0 => p.prefix_len = weird_len(r),
+                    1 => p.prefix = some_addr(r),
+                    2 => p.offset = weird_len(r),
+                    _ => p.r#type = *r.pick(&[0u32, 1, 2, 3, 257]),
+                },
+                Some(Rule::Component(c)) => match r.below(5) {
+                    0 => c.items.clear(),
+                    1 => {
+                        for it in c.items.iter_mut() {
+                            it.op &= !0x80; // no end-of-list bit
+                        }
+                    }
+                    2 => {
+                        if let Some(it) = c.items.first_mut() {
+                            it.op |= 0x80; // end-of-list bit on a non-final item
+                        }
+                        c.items.push(api::FlowSpecComponentItem { op: 0x81, value: 7 });
+                    }
+                    3 => {
+                        if let Some(it) = c.items.last_mut() {
+                            it.op = *r.pick(&[0x30u32 | 0x81, 0x100 | 0x81, 0xffff_ff81, 0x08 | 0x81]);
+                        }
+                    }
+                    _ => {
+                        c.items = (0..300).map(|_| api::FlowSpecComponentItem { op: 0x01, value: u64::MAX }).collect();
+                        if let Some(it) = c.items.last_mut() {
+                            it.op = 0x81;
+                        }
+                    }
+                },
+                _ => {}
+            }
+        }
+    }
+}
+
+fn mutate_esi(e: &mut Option<api::EthernetSegmentIdentifier>, r: &mut Rng) {
+    *e = match r.below(4) {
+        0 => None,
+        1 => Some(api::EthernetSegmentIdentifier { r#type: rnd_u32(r), value: r.bytes(9) }),
+        2 => Some(api::EthernetSegmentIdentifier {
+            r#type: 0,
+            value: {
+                let n = *r.pick(&[0usize, 8, 10]);
+                r.bytes(n)
+            },
+        }),
+        _ => return,
+    };
+}
+
+fn mutate_node(nd: &mut Option<api::LsNodeDescriptor>, r: &mut Rng) {
+    match r.below(5) {
+        0 => *nd = None,
+        1 => {
+            if let Some(n) = nd.as_mut() {
+                n.igp_router_id = match r.below(5) {
+                    0 => "zz".into(),
+                    1 => "0000.0000.0000.00.00".into(),
+                    2 => "1.2.3.4".into(),
+                    3 => "000g.0000.0000".into(),
+                    _ => "x".repeat(300),
+                }
+            }
+        }
+        2 => {
+            if let Some(n) = nd.as_mut() {
+                n.bgp_router_id = some_addr(r);
+            }
+        }
+        _ => {}
+    }
+}
+
+/// one random field-level mutation of a valid API NLRI
+fn mutate_api_nlri(n: &mut api::Nlri, r: &mut Rng) {
+    use api::nlri::Nlri as N;
+    let Some(inner) = n.nlri.as_mut() else { return };
+    match inner {
+        N::Prefix(p) => match r.below(3) {
+            0 => p.prefix_len = weird_len(r),
+            1 => p.prefix = some_addr(r),
+            _ => p.prefix = format!("{}/8", p.prefix),
+        },
+        N::LabeledPrefix(p) => match r.below(4) {
+            0 => p.prefix_len = weird_len(r),
+            1 => p.prefix = some_addr(r),
+            2 => p.labels.clear(),
+            _ => p.labels = (0..*r.pick(&[1usize, 2, 12, 90])).map(|_| rnd_u32(r)).collect(),
+        },
+        N::LabeledVpnIpPrefix(p) => match r.below(5) {
+            0 => p.prefix_len = weird_len(r),
+            1 => p.prefix = some_addr(r),
+            2 => p.labels.clear(),
+            3 => p.labels = (0..*r.pick(&[1usize, 2, 12, 90])).map(|_| rnd_u32(r)).collect(),
+            _ => mutate_rd(&mut p.rd, r),
+        },
+        N::FlowSpec(f) => mutate_rules(&mut f.rules, r),
+        N::VpnFlowSpec(f) => {
+            if r.bool() {
+                mutate_rules(&mut f.rules, r)
+            } else {
+                mutate_rd(&mut f.rd, r)
+            }
+        }
+        N::EvpnEthernetAd(e) => match r.below(4) {
+            0 => mutate_rd(&mut e.rd, r),
+            1 => mutate_esi(&mut e.esi, r),
+            2 => e.label = *r.pick(&[1u32 << 24, u32::MAX, (1 << 24) - 1]),
+            _ => e.ethernet_tag = rnd_u32(r),
+        },
+        N::EvpnMacadv(e) => match r.below(6) {
+            0 => mutate_rd(&mut e.rd, r),
+            1 => mutate_esi(&mut e.esi, r),
+            2 => {
+                e.mac_address = match r.below(5) {
+                    0 => String::new(),
+                    1 => "aa:bb:cc:dd:ee".into(),
+                    2 => "aa:bb:cc:dd:ee:fff".into(),
+                    3 => "aa-bb-cc-dd-ee-ff".into(),
+                    _ => "+1:bb:cc:dd:ee:ff".into(),
+                }
+            }
+            3 => e.ip_address = some_addr(r),
+            4 => e.labels.clear(),
+            _ => e.labels = (0..*r.pick(&[1usize, 2, 3, 40])).map(|_| *r.pick(&[5u32, 1 << 24, u32::MAX])).collect(),
+        },
+        N::EvpnMulticast(e) => match r.below(2) {
+            0 => mutate_rd(&mut e.rd, r),
+            _ => e.ip_address = some_addr(r),
+        },
+        N::EvpnEthernetSegment(e) => match r.below(3) {
+            0 => mutate_rd(&mut e.rd, r),
+            1 => mutate_esi(&mut e.esi, r),
+            _ => e.ip_address = some_addr(r),
+        },
+        N::EvpnIpPrefix(e) => match r.below(6) {
+            0 => mutate_rd(&mut e.rd, r),
+            1 => mutate_esi(&mut e.esi, r),
+            2 => e.ip_prefix = some_addr(r),
+            3 => e.ip_prefix_len = weird_len(r),
+            4 => e.gw_address = some_addr(r),
+            _ => e.label = *r.pick(&[1u32 << 24, u32::MAX]),
+        },
+        N::RouteTargetMembership(m) => match r.below(3) {
+            0 => m.asn = rnd_u32(r),
+            1 => m.rt = Some(api::RouteTarget { rt: None }),
+            _ => {
+                m.rt = Some(api::RouteTarget {
+                    rt: Some(api::route_target::Rt::TwoOctetAsSpecific(api::TwoOctetAsSpecificExtended {
+                        is_transitive: r.bool(),
+                        sub_type: *r.pick(&[2u32, 3, 258]),
+                        asn: rnd_u32(r),
+                        local_admin: rnd_u32(r),
+                    })),
+                })
+            }
+        },
+        N::SrPolicy(s) => match r.below(3) {
+            0 => {
+                let k = *r.pick(&[0usize, 3, 4, 5, 16, 17, 32]);
+                s.endpoint = r.bytes(k)
+            }
+            1 => s.length = weird_len(r),
+            _ => s.color = rnd_u32(r),
+        },
+        N::MupInterworkSegmentDiscovery(m) => match r.below(2) {
+            0 => mutate_rd(&mut m.rd, r),
+            _ => m.prefix = format!("{}/{}", some_addr(r), weird_len(r)),
+        },
+        N::MupDirectSegmentDiscovery(m) => match r.below(2) {
+            0 => mutate_rd(&mut m.rd, r),
+            _ => m.address = some_addr(r),
+        },
+        N::MupType1SessionTransformed(m) => match r.below(6) {
+            0 => mutate_rd(&mut m.rd, r),
+            1 => m.prefix = format!("{}/{}", some_addr(r), weird_len(r)),
+            2 => m.qfi = weird_len(r),
+            3 => m.endpoint_address = some_addr(r),
+            4 => {
+                m.source_address = some_addr(r);
+                m.source_address_length = weird_len(r);
+            }
+            _ => m.endpoint_address_length = weird_len(r),
+        },
+        N::MupType2SessionTransformed(m) => match r.below(4) {
+            0 => mutate_rd(&mut m.rd, r),
+            1 => m.endpoint_address = some_addr(r),
+            2 => m.endpoint_address_length = weird_len(r),
+            _ => m.teid = rnd_u32(r),
+        },
+        N::LsAddrPrefix(l) => match r.below(6) {
+            0 => l.r#type = *r.pick(&[0i32, 1, 2, 3, 4, 5, 6, 99, -1]),
+            1 => l.protocol_id = *r.pick(&[0i32, 7, 8, 255, 256, -1]),
+            2 => l.nlri = None,
+            3 => l.length = rnd_u32(r),
+            _ => {
+                use api::ls_addr_prefix::ls_nlri::Nlri as L;
+                if let Some(x) = l.nlri.as_mut().and_then(|x| x.nlri.as_mut()) {
+                    match x {
+                        L::Node(n) => mutate_node(&mut n.local_node, r),
+                        L::Link(n) => {
+                            if r.bool() {
+                                mutate_node(&mut n.local_node, r)
+                            } else if r.bool() {
+                                mutate_node(&mut n.remote_node, r)
+                            } else if let Some(d) = n.link_descriptor.as_mut() {
+                                d.interface_addr_ipv4 = some_addr(r);
+                                d.neighbor_addr_ipv6 = some_addr(r);
+                            }
+                        }
+                        L::PrefixV4(n) => {
+                            if r.bool() {
+                                mutate_node(&mut n.local_node, r)
+                            } else if let Some(d) = n.prefix_descriptor.as_mut() {
+                                d.ip_reachability = vec![format!("{}/{}", some_addr(r), weird_len(r)), "x".into()];
+                                d.ospf_route_type = *r.pick(&[0i32, 6, 7, 256 + 1, -1]);
+                            }
+                        }
+                        L::PrefixV6(n) => {
+                            if r.bool() {
+                                mutate_node(&mut n.local_node, r)
+                            } else if let Some(d) = n.prefix_descriptor.as_mut() {
+                                d.ip_reachability = vec![format!("{}/{}", some_addr(r), weird_len(r))];
+                            }
+                        }
+                        L::Srv6Sid(n) => {
+                            if r.bool() {
+                                mutate_node(&mut n.local_node, r)
+                            } else {
+                                n.srv6_sid_information = Some(api::LsSrv6SidInformation { sids: vec![some_addr(r), some_addr(r)] });
+                                n.multi_topo_id = Some(api::LsMultiTopologyIdentifier { multi_topo_ids: vec![rnd_u32(r)] });
+                            }
+                        }
+                    }
+                }
+            }
+        },
+        _ => {}
+    }
+}
+
+/// explicit wire rules for NLRIs (what each family's decoder refuses)
+fn validate_nlri(fam: Family, n: &Nlri) -> Vec<(&'static str, String)> {
+    let mut bad: Vec<(&'static str, String)> = Vec::new();
+    if !nlri_variant_families(n).contains(&fam) {
+        bad.push(("family-mismatch", format!("an NLRI of another family is accepted for {}", fam_name(fam))));
+        return bad;
+    }
+    let ops_ok = |ops: &Vec<packet::flowspec::Op>| -> Option<String> {
+        if ops.is_empty() {
+            return Some("component without operators".into());
+        }
+        for (i, op) in ops.iter().enumerate() {
+            let last = i == ops.len() - 1;
+            if op.bits & 0x30 != 0 {
+                return Some(format!("operator byte {:#04x} carries length bits", op.bits));
+            }
+            if last != (op.bits & 0x80 != 0) {
+                return Some("end-of-list bit not exactly on the last operator".into());
+            }
+        }
+        None
+    };
+    let mut fs4 = |comps: &Vec<packet::flowspec::FlowspecV4Component>, bad: &mut Vec<(&'static str, String)>| {
+        use packet::flowspec::FlowspecV4Component as C;
+        for c in comps {
+            match c {
+                C::DstPrefix(p) | C::SrcPrefix(p) => {
+                    if p.mask > 32 {
+                        bad.push(("mask-range", format!("flowspec IPv4 prefix length {}", p.mask)));
+                    }
+                }
+                C::Protocol(o) | C::Port(o) | C::DstPort(o) | C::SrcPort(o) | C::IcmpType(o) | C::IcmpCode(o)
+                | C::TcpFlags(o) | C::PacketLen(o) | C::Dscp(o) | C::Fragment(o) => {
+                    if let Some(e) = ops_ok(o) {
+                        bad.push(("flowspec-operators", e));
+                    }
+                }
+            }
+        }
+    };
+    let mut fs6 = |comps: &Vec<packet::flowspec::FlowspecV6Component>, bad: &mut Vec<(&'static str, String)>| {
+        use packet::flowspec::FlowspecV6Component as C;
+        for c in comps {
+            match c {
+                C::DstPrefix { prefix, .. } | C::SrcPrefix { prefix, .. } => {
+                    if prefix.mask > 128 {
+                        bad.push(("mask-range", format!("flowspec IPv6 prefix length {}", prefix.mask)));
+                    }
+                }
+                C::NextHeader(o) | C::Port(o) | C::DstPort(o) | C::SrcPort(o) | C::IcmpType(o) | C::IcmpCode(o)
+                | C::TcpFlags(o) | C::PacketLen(o) | C::Dscp(o) | C::Fragment(o) | C::FlowLabel(o) => {
+                    if let Some(e) = ops_ok(o) {
+                        bad.push(("flowspec-operators", e));
+                    }
+                }
+            }
+        }
+    };
+    match n {
+        Nlri::V4(p) if p.mask > 32 => bad.push(("mask-range", format!("IPv4 prefix length {}", p.mask))),
+        Nlri::V6(p) if p.mask > 128 => bad.push(("mask-range", format!("IPv6 prefix length {}", p.mask))),
+        Nlri::LabeledV4(l) => {
+            if l.prefix.mask > 32 {
+                bad.push(("mask-range", format!("labeled IPv4 prefix length {}", l.prefix.mask)));
+            }
+            if l.labels.labels().is_empty() {
+                bad.push(("empty-label-stack", "labeled NLRI without a label".into()));
+            }
+        }
+        Nlri::LabeledV6(l) => {
+            if l.prefix.mask > 128 {
+                bad.push(("mask-range", format!("labeled IPv6 prefix length {}", l.prefix.mask)));
+            }
+            if l.labels.labels().is_empty() {
+                bad.push(("empty-label-stack", "labeled NLRI without a label".into()));
+            }
+        }
+        Nlri::VpnV4(l) => {
+            if l.prefix.mask > 32 {
+                bad.push(("mask-range", format!("VPNv4 prefix length {}", l.prefix.mask)));
+            }
+            if l.labels.labels().is_empty() {
+                bad.push(("empty-label-stack", "VPN NLRI without a label".into()));
+            }
+        }
+        Nlri::VpnV6(l) => {
+            if l.prefix.mask > 128 {
+                bad.push(("mask-range", format!("VPNv6 prefix length {}", l.prefix.mask)));
+            }
+            if l.labels.labels().is_empty() {
+                bad.push(("empty-label-stack", "VPN NLRI without a label".into()));
+            }
+        }
+        Nlri::FlowspecV4(f) => fs4(&f.components, &mut bad),
+        Nlri::FlowspecVpnV4(f) => fs4(&f.components, &mut bad),
+        Nlri::FlowspecV6(f) => fs6(&f.components, &mut bad),
+        Nlri::FlowspecVpnV6(f) => fs6(&f.components, &mut bad),
+        Nlri::Evpn(e) => {
+            use packet::evpn::EvpnNlri as E;
+            let chk = |l: u32, bad: &mut Vec<(&'static str, String)>| {
+                if l >= 1 << 24 {
+                    bad.push(("label-range", format!("EVPN label {} does not fit 3 octets", l)));
+                }
+            };
+            match e {
+                E::EthernetAutoDiscovery(x) => chk(x.label, &mut bad),
+                E::MacIpAdvertisement(x) => {
+                    chk(x.label1, &mut bad);
+                    if let Some(l) = x.label2 {
+                        chk(l, &mut bad);
+                    }
+                }
+                E::EthernetIpPrefix(x) => chk(x.label, &mut bad),
+                _ => {}
+            }
+        }
+        _ => {}
+    }
+    bad
+}
+
+fn nh_for(fam: Family) -> Option<bgp::Nexthop> {
+    if is_flowspec(fam) {
+        None
+    } else if is_v6_family(fam) {
+        Some(bgp::Nexthop::V6("2001:db8::1".parse().unwrap()))
+    } else {
+        Some(bgp::Nexthop::V4(Ipv4Addr::new(10, 0, 0, 1)))
+    }
+}
+
+fn part_b_nlri(ctx: &mut Ctx, m: api::Nlri, fam: Family, how: &str) {
+    ctx.rep.eval();
+    let m_s = trunc(format!("{:?}", m));
+    let fname = fam_name(fam);
+    ctx.rep.count(&format!("b:nlri-in:{}", how));
+    let n = match guard(|| net_from_api(m.clone(), fam)) {
+        Err(p) => {
+            let w = Json::obj(vec![("api", Json::s(m_s)), ("family", Json::s(fname))]);
+            ctx.panic_violation("net_from_api", &p, w);
+            return;
+        }
+        Ok(Err(_)) => {
+            ctx.rep.count("b:nlri-rejected");
+            return;
+        }
+        Ok(Ok(n)) => n,
+    };
+    ctx.rep.count("b:nlri-accepted");
+    ctx.rep.count(&format!("b:nlri-accepted:{}", fname));
+    ctx.rep.nontrivial(fnv64(format!("{}|{}", fname, m_s).as_bytes()));
+    let bad = validate_nlri(fam, &n);
+    let wire_valid = bad.is_empty();
+    let attrs = Arc::new(base_attrs());
+    let ur = use_value(ctx, fam, &n, nh_for(fam), &attrs, wire_valid);
+    let consequences: Vec<String> = {
+        let mut v: Vec<String> = Vec::new();
+        for (stage, p) in ur.panics.iter() {
+            let s = format!("{} panics at {} ({})", stage.split('/').next().unwrap_or(""), p.location, panic_class(&p.message));
+            if !v.contains(&s) {
+                v.push(s);
+            }
+        }
+        v
+    };
+    for (stage, _) in ur.panics.iter() {
+        ctx.rep.count(&format!("b:use-panic:{}", stage.split('/').next().unwrap_or("")));
+    }
+    let wit = |extra: Vec<(&str, Json)>| {
+        let mut v = vec![
+            ("api", Json::s(m_s.clone())),
+            ("family", Json::s(fname.clone())),
+            ("accepted_as", Json::s(nlri_dbg(&n))),
+            ("consequences", Json::strs(consequences.clone())),
+        ];
+        v.extend(extra);
+        Json::obj(v)
+    };
+    for (rule, detail) in bad.iter() {
+        if !consequences.is_empty() {
+            ctx.rep.count("b:invariant-violation-that-crashes-later");
+        }
+        ctx.rep.violation(
+            &format!("C17/invariant/nlri/{}", rule),
+            &format!(
+                "net_from_api accepts an NLRI the wire decoder would reject: {}{}",
+                detail,
+                if consequences.is_empty() { String::new() } else { format!("; used like add_path uses it: {}", consequences.join(", ")) }
+            ),
+            wit(vec![("rule", Json::s(*rule))]),
+        );
+    }
+    if wire_valid {
+        if let Some((stage, p)) = ur.panics.first() {
+            ctx.rep.violation(
+                &format!("C17/unsafe-accept/{}", p.location),
+                &format!("an NLRI accepted by net_from_api panics in {} at {} ({})", stage, p.location, trunc(p.message.clone())),
+                wit(vec![("stage", Json::s(stage.clone()))]),
+            );
+        } else if let Some(why) = ur.wire {
+            // written onto the wire, the decoder does not give the same NLRI back
+            ctx.rep.violation(
+                &format!("C17/invariant/nlri/wire-rejects/{}", fname),
+                &format!("an NLRI accepted by net_from_api is not a value the wire decoder produces: {}", trunc(why.clone())),
+                wit(vec![("wire", Json::s(trunc(why)))]),
+            );
+        }
+    }
+}
+
+fn run_part_b_nlri(ctx: &mut Ctx, r: &mut Rng, n: u64) {
+    // directed
+    let pfx = |s: &str, l: u32| api::Nlri {
+        nlri: Some(api::nlri::Nlri::Prefix(api::IpAddressPrefix { prefix: s.into(), prefix_len: l })),
+    };
+    part_b_nlri(ctx, api::Nlri { nlri: None }, Family::IPV4, "directed");
+    part_b_nlri(ctx, pfx("10.0.0.0", 33), Family::IPV4, "directed");
+    part_b_nlri(ctx, pfx("10.0.0.0", 256 + 8), Family::IPV4, "directed");
+    part_b_nlri(ctx, pfx("2001:db8::", 32), Family::IPV4, "directed");
+    part_b_nlri(ctx, pfx("10.0.0.0", 8), Family::IPV6, "directed");
+    part_b_nlri(ctx, pfx("10.0.0.0", 8), Family::IPV4_VPN, "directed");
+    part_b_nlri(ctx, pfx("", 0), Family::IPV4, "directed");
+    part_b_nlri(
+        ctx,
+        api::Nlri {
+            nlri: Some(api::nlri::Nlri::LabeledPrefix(api::LabeledIpAddressPrefix { labels: vec![100], prefix_len: 40, prefix: "10.0.0.0".into() })),
+        },
+        Family::IPV4_MPLS,
+        "directed",
+    );
+    part_b_nlri(
+        ctx,
+        api::Nlri {
+            nlri: Some(api::nlri::Nlri::LabeledPrefix(api::LabeledIpAddressPrefix { labels: vec![], prefix_len: 8, prefix: "10.0.0.0".into() })),
+        },
+        Family::IPV4_MPLS,
+        "directed",
+    );
+    for i in 0..n {
+        if !ctx.rep.in_budget() {
+            break;
+        }
+        let fam = FAMILIES[(i as usize) % FAMILIES.len()].0;
+        let (typed, _, _) = gen_nlri(fam, r);
+        let mut m = match guard(|| nlri_to_api(&typed)) {
+            Ok(m) => m,
+            Err(_) => continue,
+        };
+        let how = match r.below(8) {
+            0 => {
+                // unchanged message, wrong family
+                let other = FAMILIES[r.usize(FAMILIES.len())].0;
+                part_b_nlri(ctx, m, other, "other-family");
+                continue;
+            }
+            1 => "valid",
+            _ => {
+                for _ in 0..r.range(1, 2) {
+                    mutate_api_nlri(&mut m, r);
+                }
+                "mutated"
+            }
+        };
+        part_b_nlri(ctx, m, fam, how);
     }
 }
